@@ -523,13 +523,15 @@ def derived_violation_flags(ctx, RULE):
              'computed from the option of the same kind (_violation_<kind>_type) and from no other option — a flag derived from '
              'another kind\'s option raises a warning class or calls warn() with an exception class')
     n = 0
-    for a in [x for x in ast.walk(fn) if isinstance(x, ast.Assign) and len(x.targets) == 1]:
+    # (in the constructor or in whatever private helper of the module it hands the new instance to)
+    for a in [x for x in ast.walk(m.tree) if isinstance(x, ast.Assign) and len(x.targets) == 1]:
         t = a.targets[0]
-        mt = re.fullmatch(r'_is_violation_(\w+)_warn', t.attr) if isinstance(t, ast.Attribute) and dotted(t.value) == 'self' else None
+        mt = re.fullmatch(r'_is_violation_(\w+)_warn', t.attr) if isinstance(t, ast.Attribute) and isinstance(t.value, ast.Name) else None
         if not mt:
             continue
         n += 1
-        used = sorted({x.attr for x in ast.walk(a.value) if isinstance(x, ast.Attribute) and dotted(x.value) == 'self'})
+        recv = t.value.id
+        used = sorted({x.attr for x in ast.walk(a.value) if isinstance(x, ast.Attribute) and dotted(x.value) == recv})
         ctx.ob(RULE, f'derived-flag:{t.attr}', m.where(a), f'the flag is derived from _violation_{mt.group(1)}_type only',
                used == [f'_violation_{mt.group(1)}_type'], f'derived from {used}')
     ctx.floor(RULE, n, 3, 'derived raise-or-warn flags')
